@@ -16,22 +16,22 @@ import (
 )
 
 type Verifier struct {
-	fset      *token.FileSet
-	prog      *ssa.Program
-	pkgs      []*packages.Package
-	typesInfo map[string]*types.Info
-	contracts *Contracts
-	modPath   string
-	root      string
-	funcs     map[string]*ssa.Function // "pkgpath:key"
-	loadErrs  []string
-	vcDir     string
+	fset         *token.FileSet
+	prog         *ssa.Program
+	pkgs         []*packages.Package
+	typesInfo    map[string]*types.Info
+	contracts    *Contracts
+	modPath      string
+	root         string
+	funcs        map[string]*ssa.Function // "pkgpath:key"
+	loadErrs     []string
+	vcDir        string
 	rangeTimeout int
-	workers   int
-	maxPasses int
-	rangeMS   int
-	funcs2    map[string]*ssa.Function // lifted-form SSA (footprint back ends)
-	prog2     *ssa.Program
+	workers      int
+	maxPasses    int
+	rangeMS      int
+	funcs2       map[string]*ssa.Function // lifted-form SSA (footprint back ends)
+	prog2        *ssa.Program
 }
 
 func (v *Verifier) rangeTimeoutMS() int {
@@ -340,6 +340,20 @@ func (v *Verifier) genFunc(fc *FuncContract, fn *ssa.Function, combo []int64, mu
 		}
 		x.assume(st, t)
 	}
+	// invariants of package-level tables (established by init, checked by constant evaluation,
+	// write-protected by the C18 footprint obligation)
+	for _, gi := range v.contracts.Globals {
+		if gi.Pkg != fc.Pkg {
+			continue
+		}
+		t, err := x.specBool(env, gi.Clause.Expr)
+		if err != nil {
+			x.bindingError(fmt.Sprintf("global invariant %q", gi.Clause.Src), err.Error(), gi.Clause.File, gi.Clause.Line)
+			continue
+		}
+		x.assume(st, t)
+		x.trusted["global invariant of "+shortPkg(gi.Pkg)+"."+gi.Name+" (consteval back end): "+gi.Clause.Src] = true
+	}
 	fr.entry = st.clone()
 	x.observeParams(fn, fr.entry, params)
 	// vacuity: the pre-condition must be satisfiable
@@ -357,12 +371,12 @@ func (v *Verifier) genFunc(fc *FuncContract, fn *ssa.Function, combo []int64, mu
 }
 
 type side struct {
-	fn     *ssa.Function
-	fr     *Frame
-	st     *State
-	params []Val
-	prefix string
-	loop   int // > 0: only one iteration of this loop is executed
+	fn         *ssa.Function
+	fr         *Frame
+	st         *State
+	params     []Val
+	prefix     string
+	loop       int // > 0: only one iteration of this loop is executed
 	regionExit *State
 }
 
